@@ -131,17 +131,22 @@ def callCb (U : Universe) (s : St) (o : Obj) (meth : String) (e : Entry) : St ×
   | some x => (s, .raised x)
   | none => (s, .ok)
 
+/-- insert into a set kept in ascending order (the model's canonical iteration order of the
+listener set: listeners are passive, so Python's set order is not observable) -/
+def insertSorted (l : List Obj) (o : Obj) : List Obj :=
+  if l.contains o then l else l.takeWhile (· < o) ++ [o] ++ l.dropWhile (· < o)
+
 /-- `add_handler` (events.py:50-69), abstracted to the registered set and the known names -/
 def addHandler (s : St) (o : Obj) (m : Mapping) : St :=
-  { s with registered := setAdd s.registered o,
+  { s with registered := insertSorted s.registered o,
            known := m.foldl (fun k p => setAdd k p.1) s.known }
 
 def removeHandler (s : St) (o : Obj) : St := { s with registered := s.registered.filter (· ≠ o) }
 
 /-- deliver a plain event to every registered listener mapping it (listeners are passive, so the
-set iteration order is not observable; the model uses ascending ids) -/
+set iteration order is not observable; `registered` is kept in ascending order) -/
 def deliverPlain (U : Universe) (s : St) (ev args : String) : St × Outcome :=
-  (Proto.sortNats s.registered).foldl (fun (acc : St × Outcome) o =>
+  s.registered.foldl (fun (acc : St × Outcome) o =>
     match acc.2 with
     | .ok =>
       match (U.mapOf o).bind (fun m => Dict.get? m ev) with
@@ -480,11 +485,50 @@ def step (U : Universe) (s : St) : Op → St × Outcome × String
 
 def run (U : Universe) (s : St) (ops : List Op) : St := ops.foldl (fun s op => (step U s op).1) s
 
+/-! ### Controller shorthands and reference descriptors (logic/__init__.py:27-196) -/
+
+/-- what is asked through a controller `k`: the module-level shorthands, `ComponentReference`
+and `ProcessorReference` get / set / delete -/
+inductive Via where
+  | add (c : Obj) | remove (t : Ty) | has (t : Ty) | get (t : Ty) | comps | delete
+  | cget (t : Ty) | cset (c : Obj) | cdel (t : Ty)
+  | pget (t : Ty) | pset (p : Obj) | pdel (t : Ty)
+deriving Repr, DecidableEq, Inhabited
+
+def showOptObj : Option Obj → String
+  | some c => toString c
+  | none => "None"
+
+/-- the World call a shorthand stands for, given the entity the controller recorded -/
+def viaWorld (U : Universe) (s : St) (e : Ent) : Via → St × Outcome × String
+  | .add c | .cset c => step U s (.add e c)
+  | .remove t => step U s (.remove e t)
+  | .cdel t => let r := step U s (.remove e t); (r.1, r.2.1, "-")
+  | .has t => (s, .ok, if hasComponent U s e t then "True" else "False")
+  | .get t | .cget t => (s, .ok, showOptObj (getComponent U s e t))
+  | .comps => (s, .ok, Proto.showNats (Proto.sortNats (getComponents s e)))
+  | .delete => step U s (.delete e false)
+  | .pget t => (s, .ok, showOptObj (getProcessor U s t))
+  | .pset p => step U s (.addProc p none)
+  | .pdel t => let r := step U s (.rmProc t); (r.1, r.2.1, "-")
+
+/-- a shorthand used through controller `k`: `controller.world.<op>(controller.entity, …)`;
+a controller that was never attached has `world = None` -/
+def stepVia (U : Universe) (s : St) (k : Obj) (v : Via) : St × Outcome × String :=
+  match Dict.get? s.ctrl k with
+  | some e => viaWorld U s e v
+  | none => (s, .raised "AttributeError", "-")
+
 end Desper.World
 
 /-! ### line protocol -/
 namespace Desper.World
 open Desper Proto
+
+inductive ScOp where
+  | snap
+  | op (o : Op)
+  | via (k : Obj) (v : Via)
 
 structure Parsed where
   classes : List WClass := []
@@ -496,7 +540,7 @@ structure Parsed where
   raises : Dict (Obj × String × Nat) String := []
   sweeps : List (List Ent) := []
   entUniverse : List Ent := []
-  ops : List (Option Op) := []     -- none = snapshot
+  ops : List ScOp := []
   bad : Bool := false
 
 def kv (key : String) (tok : String) : Option String := Disp.stripPrefix (key ++ "=") tok
@@ -517,23 +561,39 @@ def parseClass (p : Parsed) (cid kind b n k pr : String) : Parsed :=
 def parseEnt (s : String) : Option (Option Ent) :=
   if s = "auto" then some none else s.toNat?.map some
 
-def parseOp : List String → Option (Option Op)
+def parseVia : List String → Option Via
+  | ["add", c] => c.toNat?.map .add
+  | ["remove", t] => t.toNat?.map .remove
+  | ["has", t] => t.toNat?.map .has
+  | ["get", t] => t.toNat?.map .get
+  | ["comps"] => some .comps
+  | ["delete"] => some .delete
+  | ["cget", t] => t.toNat?.map .cget
+  | ["cset", c] => c.toNat?.map .cset
+  | ["cdel", t] => t.toNat?.map .cdel
+  | ["pget", t] => t.toNat?.map .pget
+  | ["pset", p] => p.toNat?.map .pset
+  | ["pdel", t] => t.toNat?.map .pdel
+  | _ => none
+
+def parseOp : List String → Option ScOp
   | ["create", id, cs] => do
     let i ← parseEnt id
     let l ← natList? cs
-    pure (some (.create i l))
-  | ["add", e, c] => do pure (some (.add (← e.toNat?) (← c.toNat?)))
-  | ["remove", e, t] => do pure (some (.remove (← e.toNat?) (← t.toNat?)))
-  | ["delete", e, i] => do pure (some (.delete (← e.toNat?) (← bool? i)))
-  | ["process", dt] => some (some (.process dt))
-  | ["clear"] => some (some .clear)
+    pure (.op (.create i l))
+  | ["add", e, c] => do pure (.op (.add (← e.toNat?) (← c.toNat?)))
+  | ["remove", e, t] => do pure (.op (.remove (← e.toNat?) (← t.toNat?)))
+  | ["delete", e, i] => do pure (.op (.delete (← e.toNat?) (← bool? i)))
+  | ["process", dt] => some (.op (.process dt))
+  | ["clear"] => some (.op .clear)
   | ["addproc", p, pr] => do
     let p ← p.toNat?
-    if pr = "-" then pure (some (.addProc p none)) else pure (some (.addProc p (some (← pr.toInt?))))
-  | ["rmproc", t] => do pure (some (.rmProc (← t.toNat?)))
-  | ["enable", b] => do pure (some (.enable (← bool? b)))
-  | ["dispatch", ev, args] => some (some (.dispatch ev args))
-  | ["snap"] => some none
+    if pr = "-" then pure (.op (.addProc p none)) else pure (.op (.addProc p (some (← pr.toInt?))))
+  | ["rmproc", t] => do pure (.op (.rmProc (← t.toNat?)))
+  | ["enable", b] => do pure (.op (.enable (← bool? b)))
+  | ["dispatch", ev, args] => some (.op (.dispatch ev args))
+  | ["snap"] => some .snap
+  | "via" :: k :: rest => do pure (.via (← k.toNat?) (← parseVia rest))
   | _ => none
 
 def parseLine (p : Parsed) (line : String) : Parsed :=
@@ -610,9 +670,12 @@ def runScenario (lines : List String) : List String :=
   let s0 : St := { sweepHints := p.sweeps }
   let s := p.ops.foldl (fun (s : St) op =>
     match op with
-    | none => { s with log := (snapshot U p { s with log := [] }).reverse.map Entry.out ++ s.log }
-    | some op =>
+    | .snap => { s with log := (snapshot U p { s with log := [] }).reverse.map Entry.out ++ s.log }
+    | .op op =>
       let r := step U s op
+      { r.1 with log := Entry.ret r.2.2 :: Entry.res r.2.1 :: r.1.log }
+    | .via k v =>
+      let r := stepVia U s k v
       { r.1 with log := Entry.ret r.2.2 :: Entry.res r.2.1 :: r.1.log }) s0
   s.log.reverse.flatMap showEntry
 
